@@ -66,10 +66,16 @@ def gen_scenario(rng, lists, profile):
 
     Times: op number i happens at second k_i (non-decreasing) and millisecond 500+i, so that a TTL armed
     by an earlier op has the same whole-second verdict on both sides (memory works at 1 s granularity).
-    profile 'core'  : one TTL / meta TTL / size per channel, versions < 2^53, forward reads with in-range
-                      positions, reverse reads without `since` — the area where the brokers are expected to agree;
-    profile 'wide'  : everything (mixed TTLs, huge versions, reverse+since, out-of-range since, no-history
-                      publishes, idempotency without history, …) — the area where the known differences live.
+    Every channel keeps one history TTL and one meta TTL for the whole scenario (a deadline shortened by a
+    later call is honoured late by the memory broker's expiry heap — C17's subject, not compared here), and
+    meta TTL >= history TTL.
+    profile 'core': the region where the two brokers are expected to agree — a channel is either versioned
+                    (every history publish carries a version < 2^53; long TTL) or unversioned; idempotency keys
+                    only on history publishes; reverse reads without `since` or with since in {1, 2}; list
+                    storage: no versions, no delta, no reverse.
+    profile 'wide': additionally mixed versioned/unversioned publishes, versions >= 2^53, idempotency keys on
+                    no-history publishes, arbitrary reverse+since, and for lists versions/delta/reverse —
+                    the region where the known differences live.
     """
     wide = profile == "wide"
     node_meta = rng.choice([0, 0, 20000, 60000])
@@ -77,27 +83,30 @@ def gen_scenario(rng, lists, profile):
     chans = ["a", "b"] if rng.random() < 0.6 else ["a"]
     per = {}
     for ch in chans:
-        per[ch] = {
-            "size": rng.choice([1, 2, 3, 3, 5]),
-            "ttl": rng.choice([3000, 5000, 10000, 10000]),
-            "meta": rng.choice([0, 0, 12000, 30000]),
-            "top": 0, "n": 0,
-        }
-        if per[ch]["meta"] and per[ch]["meta"] < per[ch]["ttl"] and not wide:
-            per[ch]["meta"] = 0
-    if node_meta and not wide:
-        # keep meta TTL >= history TTL in the core profile
-        for ch in chans:
-            if per[ch]["meta"] == 0 and node_meta < per[ch]["ttl"]:
-                per[ch]["ttl"] = 3000
+        p = {"size": rng.choice([1, 2, 3, 3, 5]), "ttl": rng.choice([3000, 5000, 10000, 10000]),
+             "meta": rng.choice([0, 0, 12000, 30000]), "top": 0,
+             "versioned": rng.random() < (0.45 if not lists or wide else 0.0), "ver": 0}
+        if lists:
+            p["meta"] = 0  # historyList ignores HistoryOptions.MetaTTL; keep one meta TTL per channel
+        if p["versioned"]:
+            p["ttl"] = 600000
+            if p["meta"]:
+                p["meta"] = 900000
+        eff = p["meta"] or node_meta
+        if eff and eff < p["ttl"]:
+            if p["versioned"]:
+                p["meta"] = 900000
+            else:
+                p["ttl"] = 3000 if eff >= 3000 else p["ttl"]
+        eff = p["meta"] or node_meta
+        if eff and eff < p["ttl"]:
+            p["meta"] = p["ttl"] + 5000
+        per[ch] = p
     t = 0
     n = rng.randint(6, 28)
     idem_keys = ["k1", "k2"]
-    versioned = rng.random() < 0.5
-    ver = 0
     for i in range(1, n + 1):
-        r = rng.random()
-        if r < 0.35:
+        if rng.random() < 0.35:
             t += rng.choice([0, 0, 0, 1, 1, 2, 3, 5, 8])
         at = t * 1000 + 500 + i
         ch = rng.choice(chans)
@@ -109,27 +118,25 @@ def gen_scenario(rng, lists, profile):
             if rng.random() < 0.3:
                 idem = rng.choice(idem_keys)
                 ittl = rng.choice([0, 2000, 5000])
-            if versioned and rng.random() < (0.8 if not wide else 0.6):
-                ver = max(0, ver + rng.choice([1, 1, 2, -1, 0, 3]))
-                v = ver
-                if wide and rng.random() < 0.2:
+            if p["versioned"] and (not wide or rng.random() < 0.75):
+                p["ver"] = max(1, p["ver"] + rng.choice([1, 1, 2, -1, 0, 3]))
+                v = p["ver"]
+                if wide and rng.random() < 0.15:
                     v = rng.choice([2 ** 53, 2 ** 53 + 1, 2 ** 63, 2 ** 64 - 1, 2 ** 53 - 1])
                 if rng.random() < 0.3:
                     vep = rng.choice(["x", "y"])
-            if rng.random() < 0.3:
+            if rng.random() < 0.3 and (wide or not lists):
                 delta = 1
-            if wide:
-                if rng.random() < 0.12:
-                    size, ttl = rng.choice([(0, 0), (0, p["ttl"]), (p["size"], 0)])
-                if rng.random() < 0.1:
-                    ttl = rng.choice([2000, 4000, 7000])
-                if rng.random() < 0.1:
-                    size = rng.choice([1, 2, 4])
-                if rng.random() < 0.08:
-                    meta = rng.choice([0, 3000, 9000])
-            p["n"] += 1
+            nohist = rng.random() < 0.1
+            if nohist:
+                size, ttl = rng.choice([(0, 0), (0, p["ttl"]), (p["size"], 0)])
+                if not wide:
+                    idem, ittl = "", 0
+            if wide and rng.random() < 0.1:
+                size = rng.choice([1, 2, 4])
             ops.append(fmt_pub(ch, f"d{i}", size, ttl, meta, idem, ittl, v, vep, delta, at))
-            p["top"] += 1  # an upper estimate of the top offset
+            if not nohist:
+                p["top"] += 1  # an upper estimate of the top offset
         elif k < 0.93:
             top = p["top"]
             since = None
@@ -137,15 +144,19 @@ def gen_scenario(rng, lists, profile):
             limit = rng.choice([-1, -1, -1, 0, 1, 2, 3])
             if rng.random() < 0.55:
                 ep = 1 if rng.random() < 0.8 else rng.choice([0, 2, 7])
-                off = rng.randint(0, top + 1) if top else 0
-                if wide and rng.random() < 0.2:
-                    off = rng.choice([top + 2, top + 5, 2 ** 64 - 1, 0])
+                off = rng.randint(0, top + 1)
+                if rng.random() < 0.15:
+                    off = rng.choice([top + 2, top + 5, 2 ** 64 - 1, 2 ** 64 - 2])
                 since = (off, ep)
-            if rng.random() < 0.3:
-                if since is None or wide:
-                    rev = 1
-            meta = p["meta"] if not wide or rng.random() < 0.8 else rng.choice([0, 3000, 9000])
-            ops.append(fmt_get(ch, since, limit, rev, meta, at))
+            if rng.random() < 0.3 and (wide or not lists):
+                rev = 1
+                if since is not None and not wide:
+                    since = (rng.choice([1, 2]), since[1])
+                elif since is not None and rng.random() < 0.5:
+                    since = (rng.randint(0, top + 3), since[1])
+            if since is not None and rev == 0 and since[0] >= 2 ** 64 - 1:
+                since = (2 ** 64 - 2, since[1])  # since = 2^64-1 forward: C17-1 (memory wrap-around), not compared
+            ops.append(fmt_get(ch, since, limit, rev, p["meta"], at))
         elif k < 0.97:
             ops.append(f"rm {ch} @{at}")
         else:
